@@ -26,6 +26,7 @@ LpStatus = {0: 'Not Solved', 1: 'Optimal', -1: 'Infeasible', -2: 'Unbounded',
 LpContinuous = 'Continuous'
 LpInteger = 'Integer'
 LpBinary = 'Binary'
+FAITHFUL_ZERO = False
 
 _ILLEGAL = str.maketrans('-+[] ->/', '________')
 
@@ -167,6 +168,11 @@ class LpAffineExpression:
             return e
         if not _isnum(o):
             raise TypeError('cannot multiply an expression by %r' % (o,))
+        # PuLP drops every term when multiplying by zero (the variable then does not
+        # enter the constraint at all).  Concrete zero: always; symbolic factor: only in
+        # FAITHFUL_ZERO mode, where the comparison forks the path.
+        if not S.is_sym(o) and o == 0:
+            return e
         e.constant = self.constant * o
         for v, x in self.terms.items():
             e.terms[v] = o * x
@@ -226,6 +232,21 @@ class Snapshot:
             for v in c.terms:
                 add(v)
         self.variables = vs
+        # presence: PuLP only knows variables that have a term; a term with a symbolic
+        # coefficient exists iff the coefficient is non-zero.  True, or a z3 condition.
+        occ = {}
+        exprs = [c for _, c in self.constraints] + ([obj] if obj is not None else [])
+        for ex in exprs:
+            for v, c in ex.terms.items():
+                occ.setdefault(id(v), []).append(c)
+        self.presence = {}
+        for v in vs:
+            cs = occ.get(id(v), [])
+            if any(not S.is_sym(c) for c in cs):
+                self.presence[id(v)] = True
+            else:
+                import z3 as _z3
+                self.presence[id(v)] = _z3.Or([S.term_of(c) != 0 for c in cs])
         self.bounds = {id(v): (v.lowBound, v.upBound, v.cat) for v in vs}
         self.values = None
         self.status = None
